@@ -45,6 +45,9 @@ def structured(seed, i):
 
 
 def run(check, tier):
+    import tie_common
+
+    tie_common.run_pyops(check, tier)      # the translator's prelude against CPython (the heap-mode bridges are written against it)
     import interp_suite as S
 
     n = 1500 if tier == "quick" else 60000
